@@ -587,6 +587,13 @@ func (fc *FnCtx) specCall(env *SpecEnv, e *SCall) Val {
 		case "int", "int32", "int64", "uint32", "uint64", "uint":
 			v := args(0)
 			return Val{v.T, types.Universe.Lookup(id.Name).Type()}
+		case "calls":
+			// calls(f): number of calls of f made by this function so far (f must be listed in `counts`)
+			name := specTypeText(e.Args[0])
+			if c, ok := st.calls[name]; ok && c != "" {
+				return Val{c, intT}
+			}
+			return Val{"0", intT}
 		case "held":
 			// held(x.mu): lock state is tracked syntactically
 			lid := fc.specLockID(env, e.Args[0])
